@@ -27,6 +27,7 @@ POOL = [
     "import subprocess\nsubprocess.call(['ls'])\nsubprocess.call('ls', shell=True)\n",
     "import yaml\nyaml.load(x)\nimport os\nos.chmod('f', 0o777)\nos.system(cmd)\n",
     "def f(password='secret'):\n    assert password\n    return eval(password)\n",
+    "import subprocess\nexec(a); exec(b)\nsubprocess.Popen('ls', shell=True); subprocess.Popen(c, shell=True)\nassert a; assert b\n",
 ]
 
 
@@ -176,6 +177,34 @@ def system_cases(R, rng, tier):
                     if got != exp:
                         R.violations.append({"what": "format %s reports other findings than those meeting the thresholds" % fmt,
                                              "input": inp, "observed": got, "expected": exp, "signature": None})
+    # thresholds given in a .bandit file are the same thresholds (level / confidence count like -l / -i: 1 = everything .. 4 = HIGH)
+    f = files[0]
+    base = climain.run_main(["-f", "json", "-q", "--exit-zero", f])
+    U = reports.parse("json", base["stdout"])["records"] if not base["exception"] else []
+    for si, ci in (combos if tier == "thorough" else [(3, 0), (0, 3), (3, 3), (2, 1), (1, 2)]):
+        ini = os.path.join(d, "thr.ini")
+        open(ini, "w").write("[bandit]\n" + ("level = %d\n" % (si + 1) if si else "") + ("confidence = %d\n" % (ci + 1) if ci else ""))
+        r = climain.run_main(["-f", "json", "-q", "--ini", ini, f])
+        want = [u for u in U if RANKS.index(u["severity"]) >= si and RANKS.index(u["confidence"]) >= ci]
+        R.case(("ini-threshold", si, ci), nontrivial=True, sample={"level": si + 1, "confidence": ci + 1, "exit": r["exit"]})
+        R.count("system:ini")
+        inp = {"ini": open(ini).read(), "file": f}
+        if r["exception"]:
+            R.violations.append({"what": "thresholds from a .bandit file end in a traceback (%s)" % r["exception"], "input": inp, "observed": r["traceback"], "signature": None})
+            continue
+        got = reports.parse("json", r["stdout"])["records"] or []
+        if sorted((x["test_id"], x["line"]) for x in got) != sorted((x["test_id"], x["line"]) for x in want) or r["exit"] != (1 if want else 0):
+            R.violations.append({"what": "level=%d confidence=%d in a .bandit file: %d findings reported (exit %s), %d meet the thresholds" % (
+                si + 1, ci + 1, len(got), r["exit"], len(want)), "input": inp, "observed": [(x["test_id"], x["severity"], x["confidence"]) for x in got][:8], "signature": None})
+    for bad in ("level = 5", "confidence = 9", "level = -1", "level = 0x", "confidence = 4.5"):
+        ini = os.path.join(d, "bad.ini")
+        open(ini, "w").write("[bandit]\n%s\n" % bad)
+        r = climain.run_main(["-f", "json", "-q", "--ini", ini, f])
+        R.case(("ini-bad", bad), nontrivial=True, sample={"ini": bad, "exit": r["exit"], "exception": r["exception"]})
+        R.count("usage")
+        if r["exception"] or r["exit"] != 2:
+            R.violations.append({"what": "'%s' in a .bandit file: %s instead of a diagnostic and exit status 2" % (bad, r["exception"] or "exit %s" % r["exit"]),
+                                 "input": {"ini": bad}, "observed": (r["traceback"] or "")[-300:], "signature": None})
     # usage / configuration errors: exit 2, diagnostic, no traceback
     tgt = files[0]
     for argv, what in USAGE_ERRORS:
